@@ -529,7 +529,7 @@ carquet_status_t carquet_page_writer_finalize(
         }
     }
 
-    if (writer->type == CARQUET_PHYSICAL_BOOLEAN) {
+    if (writer->type == CARQUET_PHYSICAL_BOOLEAN && writer->values_buffer.size > 0) {
         carquet_status_t bstatus = carquet_encode_plain_boolean(
             writer->values_buffer.data, (int64_t)writer->values_buffer.size,
             &uncompressed);
@@ -537,7 +537,7 @@ carquet_status_t carquet_page_writer_finalize(
             carquet_buffer_destroy(&uncompressed);
             return bstatus;
         }
-    } else {
+    } else if (writer->type != CARQUET_PHYSICAL_BOOLEAN) {
         carquet_buffer_append(&uncompressed,
                                writer->values_buffer.data,
                                writer->values_buffer.size);
